@@ -36,9 +36,11 @@ def cases(tier, seed):
 
 
 def _psi(rng):
-    c = int(rng.integers(8))
+    c = int(rng.integers(9))
     if c == 0:
         a = 0.0
+    elif c == 8:
+        a = loguniform(rng, 1e-14, 1e-9)  # below the stated sampling range but inside the map's domain
     elif c <= 3:
         a = loguniform(rng, 1e-9, 1e-4)
     elif c <= 5:
@@ -50,7 +52,7 @@ def _psi(rng):
     n = random_unit(rng)
     if rng.random() < 0.2:
         n = np.eye(3)[int(rng.integers(3))] * (1 if rng.random() < 0.5 else -1)
-    cls = "zero" if a == 0 else ("<1e-6" if a < 1e-6 else ("<1e-4" if a < 1e-4 else ("<1e-1" if a < 0.1 else "large")))
+    cls = "zero" if a == 0 else ("<1e-9" if a < 1e-9 else "<1e-6" if a < 1e-6 else ("<1e-4" if a < 1e-4 else ("<1e-1" if a < 0.1 else "large")))
     return a * n, cls
 
 
